@@ -6,7 +6,7 @@
 namespace sim {
 namespace {
 
-struct Blob { double q0, p0, s1, s2, mix, dq, dp; int shape = 0; };   // shape 0: Gaussian(s), 1: uniform disc of radius 1.8 s1, 2: uniform square of half-width 1.5 s1 (exact zeros outside)
+struct Blob { double q0, p0, s1, s2, mix, dq, dp; int shape = 0; };   // shape 0: Gaussian(s), 1: uniform disc of radius 1.8 s1, 2: uniform square of half-width 1.5 s1, 3: two discs with empty columns between them (exact zeros outside)
 
 static std::vector<float> blob_data(const Derived& d, unsigned n, const Blob& b) {
     std::vector<float> v((size_t)n * n);
@@ -16,6 +16,10 @@ static std::vector<float> blob_data(const Derived& d, unsigned n, const Blob& b)
         double g1 = std::exp(-((q - b.q0) * (q - b.q0) + (p - b.p0) * (p - b.p0)) / (2 * b.s1 * b.s1));
         if (b.shape == 1) g1 = std::hypot(q - b.q0, p - b.p0) < 1.8 * b.s1 ? 1 : 0;
         else if (b.shape == 2) g1 = (std::fabs(q - b.q0) < 1.5 * b.s1 && std::fabs(p - b.p0) < 1.5 * b.s1) ? 1 : 0;
+        else if (b.shape == 3) {   // two discs of radius s1, separated in position by a gap of at least three empty columns
+            double half = b.s1 + 2.5 * (double)d.delta_q;
+            g1 = (std::hypot(q - (b.q0 - half), p - b.p0) < b.s1 || std::hypot(q - (b.q0 + half), p - (b.p0 + b.dp)) < b.s1) ? 1 : 0;
+        }
         double g2 = b.mix > 0 ? std::exp(-((q - b.q0 - b.dq) * (q - b.q0 - b.dq) + (p - b.p0 - b.dp) * (p - b.p0 - b.dp)) / (2 * b.s2 * b.s2)) : 0;
         double val = (1 - b.mix) * g1 / (b.s1 * b.s1) + b.mix * g2 / (b.s2 * b.s2);
         v[(size_t)x * n + y] = (float)val; sum += val;
@@ -70,7 +74,7 @@ struct C03 : Scenario {
             b.s1 = r.uniform(0.5, 0.9); b.s2 = r.uniform(0.4, 0.8);
             b.mix = r.chance(0.4) ? r.uniform(0.2, 0.5) : 0;
             // "any distribution": a quarter of the starts have compact support with a sharp edge
-            b.shape = (r.chance(0.25) && c.grid <= 110 && c.steps <= 150) ? (int)r.range(1, 2) : 0;
+            b.shape = (r.chance(0.3) && c.grid <= 110 && c.steps <= 150) ? (int)r.range(1, 3) : 0;
             if (b.shape) b.mix = 0;
             b.dq = r.uniform(-0.6, 0.6); b.dp = r.uniform(-0.6, 0.6);
             double theta = 2 * M_PI / c.steps;
@@ -79,6 +83,7 @@ struct C03 : Scenario {
             double smax = std::max(b.s1, b.mix > 0 ? b.s2 : 0.0);
             double seff = std::sqrt(smax * smax + (c.interp == 2 ? (c.steps + 1) * delta * delta / 4 : 0));
             double reach = (amp + (b.mix > 0 ? 0.85 : 0)) * (1 + theta) + 4.6 * seff;
+            if (b.shape == 3) reach = (amp + b.s1 + 2.5 * delta + 0.6) * (1 + theta) + 1.2 * b.s1 + (c.interp == 2 ? 4.6 * std::sqrt((c.steps + 1) * delta * delta / 4) : 0);   // (linear interpolation broadens by delta^2/8 per map)
             double half = c.pssize / 2 - std::max(std::fabs(c.shiftx), std::fabs(c.shifty)) * delta;
             if (half - reach >= 0.3 && std::min(b.s1, b.mix > 0 ? b.s2 : b.s1) / delta >= (b.shape ? 3.0 : 2.0)) break;
             if (tries > 60 && c.interp == 2) c.interp = 4;
@@ -100,6 +105,17 @@ struct C03 : Scenario {
         Derived d = derive(cfg);
         unsigned n = (unsigned)cfg.grid;
         Blob b{plan.getd("b.q0"), plan.getd("b.p0"), plan.getd("b.s1"), plan.getd("b.s2"), plan.getd("b.mix"), plan.getd("b.dq"), plan.getd("b.dp"), (int)plan.geti("b.shape", 0)};
+        {   // the generator's provisos, re-checked so that shrinking cannot leave the property's domain (blob resolved by the mesh,
+            // inside the grid for the whole orbit)
+            double delta = cfg.pssize / (cfg.grid - 1), theta0 = 2 * M_PI / derive(cfg).steps;
+            double smin = std::min(b.s1, b.mix > 0 ? b.s2 : b.s1), smax = std::max(b.s1, b.mix > 0 ? b.s2 : 0.0);
+            double seff = std::sqrt(smax * smax + (cfg.interp == 2 ? (derive(cfg).steps + 1) * delta * delta / 4 : 0));
+            double amp = std::hypot(b.q0, b.p0);
+            double reach = (amp + (b.mix > 0 ? 0.85 : 0)) * (1 + theta0) + 4.6 * seff;
+            if (b.shape == 3) reach = (amp + b.s1 + 2.5 * delta + 0.6) * (1 + theta0) + 1.2 * b.s1 + (cfg.interp == 2 ? 4.6 * std::sqrt((derive(cfg).steps + 1) * delta * delta / 4) : 0);
+            double half = cfg.pssize / 2 - std::max(std::fabs(cfg.shiftx), std::fabs(cfg.shifty)) * delta;
+            if (!(half - reach >= 0.25 && smin / delta >= (b.shape ? 2.9 : 1.95))) { o.discard("start distribution not resolved by the mesh or not clear of the border (outside the property's provisos)"); return o; }
+        }
         auto data = blob_data(d, n, b);
         if (!h5_write_f32(rc.workdir + "/start.h5", "/PhaseSpace/data", {1, n, n}, data)) { o.set_infra("cannot write start file"); return o; }
         uint64_t entropy = plan.getu("entropy");
@@ -185,7 +201,10 @@ struct C03 : Scenario {
         // slack for the sinusoidal model: its kick is theta*sin(k q)/k, i.e. relative nonlinearity (k q)^2/6 per step, which can
         // add up over the period; k = RF phase per natural bunch length
         const double krf = d.bl / 2.99792458e8 * d.f_RF * 2 * M_PI;
+        // nl: slack of the statement-level clauses (rotation, phase advance, closure), which compare with the ideal linear rotation and
+        // therefore see the amplitude detuning of the sinusoidal model; nl_model: slack of the recurrence clause, whose model is exact
         double nl = cfg.linearRF ? 0 : 3 * 2 * M_PI * c0 * std::pow(krf * (c0 + std::max(b.s1, b.s2)), 2) / 6 + 1e-3 * c0;
+        double nl_model = nl;
         // Sinusoidal RF: the recurrence model transports the authored start distribution itself (every grid point a weighted
         // particle) through the kick p += A (sin(k q + phi_s) - sin phi_s), A = T_step/T_rev * V_RF / (sigma_E E_0), and the drift
         // q -= theta p, in double. Nonlinearity, the synchronous phase (focusing ~ cos phi_s, asymmetric potential) and the shape of
@@ -205,7 +224,7 @@ struct C03 : Scenario {
                 for (size_t i = 0; i < eq.size(); i++) { ep[i] += A * (std::sin(krf * eq[i] + phis) - std::sin(phis)); eq[i] -= theta * ep[i]; aq += ew[i] * eq[i]; ap += ew[i] * ep[i]; }
                 MQ[k] = aq / sw; MP[k] = ap / sw;
             }
-            nl = 2e-4 * c0;
+            nl_model = 2e-4 * c0;
             o.hints["slope"] = fmt_g(A * krf * std::cos(phis) / theta, 8);
         }
         {   // statistics over the whole history (independent of where a clause fails first)
@@ -219,7 +238,7 @@ struct C03 : Scenario {
             if (!cfg.linearRF) { mq = MQ[k]; mp = MP[k]; }
             double dev = std::hypot(Q[k] - mq, P[k] - mp);
             maxdev = std::max(maxdev, dev);
-            if (dev > tau + nl) { o.hints["step"] = std::to_string(k); o.fail("C03.kick_drift_recurrence", "step " + std::to_string(k) + ": centroid (" + fmt_g(Q[k], 7) + "," + fmt_g(P[k], 7) + ") but kick p+=tan(theta)q, drift q-=theta p from the first record gives (" + fmt_g(mq, 7) + "," + fmt_g(mp, 7) + "); deviation " + fmt_g(dev, 3) + " > " + fmt_g(tau + nl, 3) + ctx); break; }
+            if (dev > tau + nl_model) { o.hints["step"] = std::to_string(k); o.fail("C03.kick_drift_recurrence", "step " + std::to_string(k) + ": centroid (" + fmt_g(Q[k], 7) + "," + fmt_g(P[k], 7) + ") but kick p+=tan(theta)q, drift q-=theta p from the first record gives (" + fmt_g(mq, 7) + "," + fmt_g(mp, 7) + "); deviation " + fmt_g(dev, 3) + " > " + fmt_g(tau + nl_model, 3) + ctx); break; }
             // (b) exact rotation (counter-clockwise in (q,p): q' = q cos - p sin, p' = q sin + p cos), first-order splitting bound
             double a = k * theta;
             double rq = Q[0] * std::cos(a) - P[0] * std::sin(a), rp = Q[0] * std::sin(a) + P[0] * std::cos(a);
@@ -242,7 +261,7 @@ struct C03 : Scenario {
         }
         std::string sh = (cfg.shiftx == 0 && cfg.shifty == 0) ? "centred" : cfg.shiftx == cfg.shifty ? "eq" : "uneq";
         std::string sb = cfg.steps < 40 ? "few" : cfg.steps < 150 ? "mid" : "many";
-        o.probe(std::string("cls.") + (cfg.linearRF ? "lin" : "sin") + ".ip" + std::to_string(cfg.interp) + (n % 2 ? ".odd" : ".even") + "." + sh + "." + sb + (b.mix > 0 ? ".mix" : b.shape == 1 ? ".disc" : b.shape == 2 ? ".square" : ".gauss") + (cut >= 0 ? ".cut" : ""));
+        o.probe(std::string("cls.") + (cfg.linearRF ? "lin" : "sin") + ".ip" + std::to_string(cfg.interp) + (n % 2 ? ".odd" : ".even") + "." + sh + "." + sb + (b.mix > 0 ? ".mix" : b.shape == 1 ? ".disc" : b.shape == 2 ? ".square" : b.shape == 3 ? ".twodiscs" : ".gauss") + (cut >= 0 ? ".cut" : ""));
         if (sh == "uneq") o.probe("reach.unequal_shifts");
         if (n % 2) o.probe("reach.odd_grid");
         o.simperiods = o.simsteps / d.steps;
